@@ -222,18 +222,46 @@ def _instantiate(fn, call, caller_names, target, as_return, is_method, counter):
     out = pre + body
     if not out:
         out = [ast.Pass()]
-    # inlined statements sit at the call site: same line, increasing columns (keeps "before/after" comparisons against the caller's statements right)
-    col = [0]
+    # inlined statements sit at the call site; `_inl_seq` orders them among themselves (line numbers are made distinct by `_renumber` at the end)
     for s in out:
         for n in ast.walk(s):
-            if hasattr(n, "lineno"):
+            if hasattr(n, "lineno") or isinstance(n, (ast.stmt, ast.expr)):
                 n.lineno = call.lineno
                 n.end_lineno = call.lineno
-                n.col_offset = col[0]
-                n.end_col_offset = col[0]
-                col[0] += 1
+                n.col_offset = 0
+                n.end_col_offset = 0
             n._inlined_from = fn.name
+            n._inl_call = getattr(call, "_inl_call", None) or call
     return out
+
+
+SCALE = 1000
+
+
+def _renumber(tree):
+    """After inlining, several statements share the line of their call site.  Rules compare line numbers to decide "before/after", so every line number of the file is
+    multiplied by SCALE and the inlined statements get call_line * SCALE + k in their textual order (reports divide by SCALE again, see report.Ctx)."""
+    counters = {}
+
+    def preorder(node):
+        yield node
+        for ch in ast.iter_child_nodes(node):
+            for x in preorder(ch):
+                yield x
+
+    for n in preorder(tree):
+        if getattr(n, "_scaled", False):
+            continue
+        if hasattr(n, "lineno") and n.lineno is not None:
+            base = n.lineno * SCALE
+            if getattr(n, "_inlined_from", None) is not None:
+                k = counters.get(n.lineno, 0) + 1
+                counters[n.lineno] = k
+                base += min(k, SCALE - 1)
+            n.lineno = base
+            if getattr(n, "end_lineno", None) is not None:
+                n.end_lineno = max(n.end_lineno * SCALE, base) if getattr(n, "_inlined_from", None) is None else base
+            n._scaled = True
 
 
 def _reparent(tree):
@@ -334,4 +362,5 @@ def inline_new_helpers(tree, rel, max_rounds=3):
                     par.body.append(ast.Pass())
         ast.fix_missing_locations(tree)
         _reparent(tree)
+        _renumber(tree)
     return done
